@@ -72,6 +72,24 @@ func genSteer(r *rand.Rand, n int, tier string) []Case {
 		for j := 0; j < 1+r.Intn(2); j++ {
 			bs = append(bs, mk("addfact", "remfact", "addrule", "remrule", "event", "event", "search", "getfact"))
 		}
+		if r.Intn(8) == 0 {
+			// an item that has expired, unread, when the pair starts: the steered reader meets it (notes
+			// its id, purges after releasing its lock) while the other client writes a NEW item under
+			// that id - the purge must not take the new item for the expired one
+			what := pick(r, "fact", "rule").(string)
+			if what == "fact" {
+				setup = []interface{}{map[string]interface{}{"loc": "L0", "op": "addfact", "id": "i0", "expires_in": 1.0, "fact": fact()}}
+				a = pick(r, map[string]interface{}{"loc": "L0", "op": "getfact", "id": "i0"},
+					map[string]interface{}{"loc": "L0", "op": "search", "inherited": false, "pattern": map[string]interface{}{"k": "?v"}}).(map[string]interface{})
+				bs = []interface{}{map[string]interface{}{"loc": "L0", "op": "addfact", "id": "i0", "fact": fact()},
+					map[string]interface{}{"loc": "L0", "op": "getfact", "id": "i0"}}
+			} else {
+				setup = []interface{}{map[string]interface{}{"loc": "L0", "op": "addrule", "id": "ri0", "expires_in": 1.0, "rule": rulePat(map[string]interface{}{"k": "?v"})}}
+				a = map[string]interface{}{"loc": "L0", "op": "event", "event": map[string]interface{}{"k": "x"}}
+				bs = []interface{}{map[string]interface{}{"loc": "L0", "op": "addrule", "id": "ri0", "rule": rulePat(map[string]interface{}{"k": "?v"})},
+					map[string]interface{}{"loc": "L0", "op": "getfact", "id": "ri0"}}
+			}
+		}
 		cases = append(cases, Case{"locs": []interface{}{map[string]interface{}{"name": "L0", "kind": kind}},
 			"setup": setup, "clients": []interface{}{[]interface{}{a}, bs},
 			"ids": []interface{}{"i0", "i1", "ri0", "ri1"}, "separate": false, "child": true,
@@ -116,8 +134,26 @@ func execSteerCase(c Case) {
 			return
 		}
 	}
+	var wait time.Time
 	for _, oi := range list(c["setup"]) {
-		execLocOp(w, obj(oi))
+		o := obj(oi)
+		if in, timed := o["expires_in"]; timed {
+			// an absolute expiry (whole seconds), stamped now so that the model sees the same value
+			at := float64(time.Now().Unix() + num(in))
+			delete(o, "expires_in")
+			key := "fact"
+			if _, isRule := o["rule"]; isRule {
+				key = "rule"
+			}
+			obj(o[key])["expires"] = at
+			if t := time.Unix(int64(at), 0).Add(1150 * time.Millisecond); t.After(wait) {
+				wait = t
+			}
+		}
+		execLocOp(w, o)
+	}
+	if !wait.IsZero() {
+		time.Sleep(time.Until(wait)) // (well past the expiry instant: nothing is near a second boundary)
 	}
 	clients := list(c["clients"])
 	a := obj(list(clients[0])[0])
